@@ -1,0 +1,16 @@
+//go:build verif
+
+package parse
+
+import "github.com/simimpact/srsim/pkg/logic/gcs/ast"
+
+// VerifLex runs the lexer alone over input and returns every token it emits, in order
+// (verification only: the lexer is otherwise only observable through the parser).
+func VerifLex(input string) []ast.Token {
+	l := lex(input)
+	var out []ast.Token
+	for t := range l.items {
+		out = append(out, t)
+	}
+	return out
+}
